@@ -92,6 +92,10 @@ pub struct Cfg
     pub signals: bool,
     pub hierarchy_pct: u64,
     pub syscalls: bool,
+    /// extra ops placed in the initial batch: one-off reactors, entity-world-reactor members, world-reactor triggers
+    pub setup_once: (u64, u64),
+    pub setup_ewr: (u64, u64),
+    pub setup_wr: (u64, u64),
 }
 
 fn wset(pairs: &[(K, u32)]) -> [u32; NK] { let mut w = [0u32; NK]; for (k, v) in pairs { w[*k as usize] = *v; } w }
@@ -133,6 +137,9 @@ pub fn base_cfg() -> Cfg
         signals: false,
         hierarchy_pct: 0,
         syscalls: false,
+        setup_once: (0, 0),
+        setup_ewr: (0, 0),
+        setup_wr: (0, 0),
     }
 }
 
@@ -252,8 +259,9 @@ pub fn profile(name: &str) -> Cfg
         {
             c.name = "C15";
             bump(&mut c, &[(K::Once, 16), (K::Revoke, 8), (K::Broadcast, 14), (K::EntityEvent, 10), (K::TriggerRes, 8), (K::Mutate, 8), (K::Despawn, 5), (K::Remove, 5), (K::Insert, 5)]);
-            c.max_created = 6;
+            c.max_created = 8;
             c.pct_hot = 90;
+            c.setup_once = (1, 3);
             c.d_driver[D::Gc as usize] = 10;
         }
         "C16" =>
@@ -265,6 +273,9 @@ pub fn profile(name: &str) -> Cfg
             c.d_driver[D::Spawn as usize] = 8;
             c.d_driver[D::Despawn as usize] = 6;
             c.pct_hot = 85;
+            c.setup_ewr = (1, 4);
+            c.setup_wr = (1, 3);
+            c.pre_insts = (1, 3);
         }
         "C17" =>
         {
@@ -549,6 +560,19 @@ pub fn generate(seed: u64, base: &Cfg) -> Program
         let trigs = g.bundle(inst, lo, hi);
         setup.push(Op::Register { inst, mode, trigs });
     }
+    let n = g.r.range(g.c.setup_once.0, g.c.setup_once.1);
+    for _ in 0..n
+    {
+        if g.created_budget == 0 { break; }
+        g.created_budget -= 1;
+        let inst = g.new_inst(Origin::Once, 1);
+        let trigs = g.bundle(inst, 0, 4);
+        setup.push(Op::Once { inst, trigs });
+    }
+    let n = g.r.range(g.c.setup_wr.0, g.c.setup_wr.1);
+    for _ in 0..n { if g.wr.is_empty() { break; } let k = *g.r.pick(&g.wr.clone()); let m = g.r.range(1, 3); let t: Vec<Trig> = (0..m).map(|_| g.any_trig()).collect(); setup.push(Op::WrAdd(k, dedup(t))); }
+    let n = g.r.range(g.c.setup_ewr.0, g.c.setup_ewr.1);
+    for _ in 0..n { if g.ewr.is_empty() { break; } let k = *g.r.pick(&g.ewr.clone()); let s = g.slot(); let d = g.r.range(1, 9) as u32; setup.push(Op::EwrAdd(k, s, d)); }
     let mut steps = vec![Step::Batch(setup)];
     // frame systems
     let nframes = g.r.range(g.c.frame_systems.0, g.c.frame_systems.1);
